@@ -333,12 +333,13 @@ def gen_tree(r, max_depth=3, allow_bytes=False, nfiles=None):
         ep = posixpath.dirname(host) + '/empty.inc'
         if ep not in files and not _would_be_ambiguous(nodes, inc_dirs, used_paths, posixpath.dirname(host), 'empty.inc', ep):
             files[ep] = r.choice(('', '\n', '\n\n   \n', '# nothing here\n', '   # indented comment only'))
-            hl = files[host].split('\n')
-            eol = '\r' if hl and hl[0].endswith('\r') else ''
-            pos = _safe_pos([l.rstrip('\r') for l in hl], r.randint(0, len(hl)), 0)
-            # keep constant/alias header lines first is not required for an empty file; any safe position will do
-            hl.insert(pos, 'include empty.inc' + eol)
-            files[host] = '\n'.join(hl)
+            crlf = '\r\n' in files[host]
+            hl = files[host].replace('\r\n', '\n').split('\n')
+            pos = _safe_pos(hl, r.randint(0, len(hl)), 0)
+            if pos == len(hl) and hl and hl[-1] == '':
+                pos -= 1            # before the empty string that stands for the final newline
+            hl.insert(pos, 'include empty.inc')
+            files[host] = '\n'.join(hl).replace('\n', '\r\n') if crlf else '\n'.join(hl)
             includes.append({'from': host, 'written': 'empty.inc', 'target': ep})
     tree = {'files': files, 'bins': bins, 'dirs': list(LAYOUT_DIRS), 'main': main, 'inc_dirs': inc_dirs, 'includes': includes,
             'symbols': env}
@@ -531,7 +532,7 @@ def flatten(tree_files, inc_dirs, path, choice=None, ambiguous=None, depth=0):
 FAULTS = {
     'imm-range': ['addi t0, t0, 2048', 'addi t0, t0, -2049', 'lw t0, 4096(sp)', 'sw t0, -2049(sp)', 'lui t0, 0x100000', 'lui t0, -1',
                   'beq t0, t1, 4096', 'beq t0, t1, -4098', 'jal ra, 1048576', 'jal x0, -1048578', 'c.addi t0, 32', 'c.li t0, -33',
-                  'fence 16 0', 'andi s0, s0, 4000', 'slti a0, a0, 99999', 'jalr x0, 2048(t0)', 'lb a0, -3000(a1)', 'auipc t0, 1048576',
+                  'fence 16 0', 'fence rx, w', 'fence iorw, q', 'fence 1, z', 'fence 0b1111, 0x1f', 'andi s0, s0, 4000', 'slti a0, a0, 99999', 'jalr x0, 2048(t0)', 'lb a0, -3000(a1)', 'auipc t0, 1048576',
                   'beq t0, t1, 3', 'jal ra, 5', 'align 0', 'addi {r}, {r}, 5000', 'lw {r}, 9999({r})', 'slli {r}, {r}, 40', 'csrrw t0, 4096, t1', 'c.lui t0, 64', 'c.addi16sp 1024', 'c.jal 4096', 'c.lwsp t0, 256'],
     'imm-range-pseudo': ['li t0, 1 << 40', 'li t0, 0x100000000 * 4096 + 0x1000'],
     'data-range': ['db 256', 'db -129', 'dh 65536', 'dh -32769', 'dw 4294967296', 'dw -2147483649', 'dd 18446744073709551616',
@@ -584,7 +585,8 @@ def plant_fault(r, tree, cls, line_text=None, target_file=None, where=None):
     text = text.replace('{label}', r.choice(labels)).replace('{dup}', r.choice(labels)).replace('{r}', r.choice(aliases) if aliases else 't0')
     paths = sorted(tree['files'])
     path = target_file or r.choice(paths)
-    lines = tree['files'][path].split('\n')
+    crlf_file = '\r\n' in tree['files'][path]
+    lines = tree['files'][path].replace('\r\n', '\n').split('\n')
     # valid insertion points: never inside a data block (between a data directive and its align)
     body_len = len(lines)
     while body_len and lines[body_len - 1].strip() == '' and body_len > 1:
@@ -604,8 +606,6 @@ def plant_fault(r, tree, cls, line_text=None, target_file=None, where=None):
     head = text.split()[0].lower() if text.split() else ''
     if head in DATA_FAULT_PREFIX and head != 'align':
         ins.append('align 4')
-    if lines and lines[0].endswith('\r'):
-        ins = [i + '\r' for i in ins]
     lines[pos:pos] = ins
-    tree['files'][path] = '\n'.join(lines)
+    tree['files'][path] = '\n'.join(lines).replace('\n', '\r\n') if crlf_file else '\n'.join(lines)
     return path, pos + 1, ins[0]
